@@ -143,6 +143,8 @@ class Interp:
         self.max_paths, self.max_steps = max_paths, max_steps
         self.run: Run = Run([])
         self.unknown_call_hook: Optional[Callable] = None
+        self._gen_cache: Dict[int, bool] = {}
+        self._up_cache: Dict[int, str] = {}
         from . import absint_builtins  # late import (cycle)
         self.bi = absint_builtins.Builtins(self)
 
@@ -170,6 +172,15 @@ class Interp:
         return paths
 
     # ------------------------------------------------------------------ helpers
+    def up(self, node: Optional[ast.AST]) -> str:
+        if node is None:
+            return ""
+        r = self._up_cache.get(id(node))
+        if r is None:
+            r = ast.unparse(node)
+            self._up_cache[id(node)] = r
+        return r
+
     def unsupported(self, msg: str, node: Optional[ast.AST], fr: Optional[Frame]) -> Unsupported:
         return Unsupported(msg, node, self.p.rel(fr.module) if fr and fr.module in self.p.modules else "")
 
@@ -453,7 +464,11 @@ class Interp:
             r = self.summaries[qn](self, func, self_val, args, kwargs, node, caller)
             if r is not NotImplemented:
                 return r
-        if any(isinstance(n, (ast.Yield, ast.YieldFrom)) for n in ast.walk(func.node)):
+        isgen = self._gen_cache.get(id(func.node))
+        if isgen is None:
+            isgen = any(isinstance(n, (ast.Yield, ast.YieldFrom)) for n in ast.walk(func.node))
+            self._gen_cache[id(func.node)] = isgen
+        if isgen:
             self.run.event("call_generator", func=qn, args=args, kwargs=kwargs, node=node)
             return Unknown(self.run.new_tag(f"{qn}(...)"), {"generator": qn})
         a = func.node.args
@@ -732,14 +747,14 @@ class Interp:
 
     def st_If(self, st: ast.If, fr: Frame) -> None:
         c = self.eval(st.test, fr)
-        if self.truth(c, ast.unparse(st.test)):
+        if self.truth(c, self.up(st.test)):
             self.exec_block(st.body, fr)
         else:
             self.exec_block(st.orelse, fr)
 
     def st_Assert(self, st: ast.Assert, fr: Frame) -> None:
         c = self.eval(st.test, fr)
-        txt = ast.unparse(st.test)
+        txt = self.up(st.test)
         self.run.event("assert", test=txt, node=st, func=fr.func.qualname if fr.func else "")
         determinate = isinstance(c, BoolV) or c is NONE or self.is_concrete(c)
         if determinate:
@@ -880,8 +895,8 @@ class Interp:
     def st_Match(self, st: ast.Match, fr: Frame) -> None:
         subj = self.eval(st.subject, fr)
         for case in st.cases:
-            if self.bi.match_pattern(subj, case.pattern, fr, ast.unparse(st.subject)):
-                if case.guard is not None and not self.truth(self.eval(case.guard, fr), ast.unparse(case.guard)):
+            if self.bi.match_pattern(subj, case.pattern, fr, self.up(st.subject)):
+                if case.guard is not None and not self.truth(self.eval(case.guard, fr), self.up(case.guard)):
                     continue
                 self.exec_block(case.body, fr)
                 return
@@ -947,7 +962,7 @@ class Interp:
                 return SymBool(v.tag, not v.neg, v.meta)
             if isinstance(v, Unknown):
                 return SymBool(v.tag, True, {"of": v})
-            return FALSE if self.truth(v, ast.unparse(e.operand)) else TRUE
+            return FALSE if self.truth(v, self.up(e.operand)) else TRUE
         if isinstance(e.op, ast.USub) and isinstance(v, IntV):
             return IntV(-v.v)
         if isinstance(e.op, ast.USub) and isinstance(v, Unknown):
@@ -960,7 +975,7 @@ class Interp:
             last = self.eval(sub, fr)
             if i == len(e.values) - 1:
                 return last
-            t = self.truth(last, ast.unparse(sub))
+            t = self.truth(last, self.up(sub))
             if isinstance(e.op, ast.And) and not t:
                 return last if self.is_concrete(last) else FALSE
             if isinstance(e.op, ast.Or) and t:
@@ -968,7 +983,7 @@ class Interp:
         return last
 
     def ex_IfExp(self, e: ast.IfExp, fr: Frame) -> Value:
-        if self.truth(self.eval(e.test, fr), ast.unparse(e.test)):
+        if self.truth(self.eval(e.test, fr), self.up(e.test)):
             return self.eval(e.body, fr)
         return self.eval(e.orelse, fr)
 
@@ -980,7 +995,7 @@ class Interp:
             r = self.bi.compare(op, left, right, e, fr)
             if len(e.ops) == 1:
                 return r
-            if not self.truth(r, ast.unparse(e)):
+            if not self.truth(r, self.up(e)):
                 return FALSE
             result = r
             left = right
